@@ -2,7 +2,7 @@
 From Coq Require Import ZArith List Bool.
 Import ListNotations.
 Require Import GV.Gen.Consts GV.Model.Outcome GV.Model.J1939 GV.Model.Governor GV.Model.Hcu GV.Model.Object
-  GV.Model.HcuUnit GV.Model.Units GV.Spec.Units_spec GV.Proofs.Units_proof.
+  GV.Model.HcuUnit GV.Model.Units GV.Spec.Units_spec GV.Proofs.Units_proof GV.Proofs.C12_history.
 Local Open Scope Z_scope.
 
 (* for ALL 2^64 payloads, all identifiers and configurations: encoder position / error class,
@@ -26,3 +26,18 @@ Theorem C12_never_running_at_zero : forall d, bytes8 d ->
   /\ ((let n := nth 6 d 255 mod 16 in n = 1 \/ n = 2) -> e_state e = Starting).
 Proof. exact eec1_state. Qed.
 Print Assumptions C12_never_running_at_zero.
+
+(* ... and from ANY driver context, in particular after any history of frames: what a frame means does
+   not depend on what the driver saw before *)
+Theorem C12_any_context : forall c x, ucase_wf c = true ->
+  c12_spec_ok c (Ok (unit_recv (uc_kind c) (uc_u c) x (uc_frame c))) = true.
+Proof. exact c12_any_context. Qed.
+Check C12_any_context : forall c x, ucase_wf c = true ->
+  c12_spec_ok c (Ok (unit_recv (uc_kind c) (uc_u c) x (uc_frame c))) = true.
+Print Assumptions C12_any_context.
+Theorem C12_any_history : forall c fs, ucase_wf c = true ->
+  c12_spec_ok c (Ok (unit_recv (uc_kind c) (uc_u c) (ctx_after (uc_kind c) (uc_u c) fs) (uc_frame c))) = true.
+Proof. exact c12_any_history. Qed.
+Check C12_any_history : forall c fs, ucase_wf c = true ->
+  c12_spec_ok c (Ok (unit_recv (uc_kind c) (uc_u c) (ctx_after (uc_kind c) (uc_u c) fs) (uc_frame c))) = true.
+Print Assumptions C12_any_history.
